@@ -21,6 +21,8 @@ class SoundParser(CastParser):
         # Director sound type
         logging.info("Is a sound")
         castData['type'] = 'sound'
-        castData['loop'] = (basic_data['basic']['basic_data2'] != 0x10)
+        # A member without info block has no flags (same as all zeroes)
+        basic = basic_data.get('basic', {})
+        castData['loop'] = (basic.get('basic_data2', 0) != 0x10)
         
         return castData
